@@ -20,6 +20,8 @@ _real = {
 }
 
 CHUNKS = ("all", "all", "half", "4096", "1")
+import re as _re
+_PID_TMP = _re.compile(r"\.pickle\.\d+\.tmp$")  # simulated pids are deterministic, such names are stable
 
 
 class SimRaw(io.RawIOBase):
@@ -144,7 +146,7 @@ class SimFS:
     def rel(self, path):
         r = os.path.relpath(path, self.root)
         d, b = os.path.split(r)
-        if b.endswith((".yml", ".s", ".pickle")) or b in ("data", "cache", "isa", ".osaca", "home", "pkg", "kernels") or "." not in b and len(b) < 12:
+        if b.endswith((".yml", ".s", ".pickle")) or _PID_TMP.search(b) or b in ("data", "cache", "isa", ".osaca", "home", "pkg", "kernels") or "." not in b and len(b) < 12:
             return r
         k = self.tmp_names.setdefault(r, len(self.tmp_names))
         return os.path.join(d, "<tmp#%d>" % k)
